@@ -479,6 +479,19 @@ class C11(Property):
                    "ops": [["addn", 0, 0, 1, 20], ["add", 1, 0, 5001, 1], ["shutdown"], ["add", 0, 1, 21, 1], ["add", 1, 1, 5002, 1],
                            ["rel", 0, 0], ["add", 1, 0, 5003, 1], ["rel", 1, 0], ["relall"], ["clock", 10001], ["tick", 1], ["tick", 1],
                            ["tick", 0], ["add", 1, 0, 5004, 1], ["clock", idle], ["tick", 0], ["tick", 0], ["add", 0, 0, 22, 1]]})
+        # lifecycle of the background goroutine x a foreign Flush held inside its callback x Wait (seeded change C11-10: Wait
+        # returns without waitGroup.Wait when guarded is false): the flusher has idle-quit and is gone while (a) another
+        # client's explicit Flush, (b) the shutdown listener's Flush, (c) the quitting flusher's own deferred Flush is still
+        # executing a batch added before the Wait; (d) the same while the flusher is alive, (e) after a later Add restarted it
+        for kind in ("bulk", "chunk", "periodical"):
+            cs.append(single(kind, 3, 3, [["add", 0, 1, 1], ["flush", 1], ["clock", 10001], ["tick"], ["wait", 2], ["wait", 0, 1], ["rel", 0]]))
+        cs.append(agg("struct", "nil", 3, 3, [["add", 0, 0, 1], ["flush", 1], ["clock", 10001], ["tick"], ["wait", 2], ["rel", 0]]))
+        cs.append(single("bulk", 3, 3, [["add", 0, 1, 1], ["shutdown"], ["clock", 10001], ["tick"], ["wait", 2], ["rel", 0]]))
+        cs.append(single("bulk", 3, 3, [["add", 0, 1, 1], ["tick"], ["rel", 0], ["clock", 10001], ["tick"], ["add", 1, 2, 1], ["qgo"],
+                                        ["wait", 0], ["wait", 2, 1], ["rel", 0]], gateq=True))
+        cs.append(single("bulk", 3, 3, [["add", 0, 1, 1], ["flush", 1], ["tick"], ["wait", 2], ["rel", 0]]))
+        cs.append(single("bulk", 3, 4, [["add", 0, 1, 1], ["flush", 1], ["clock", 10001], ["tick"], ["add", 0, 2, 1], ["wait", 2], ["rel", 0],
+                                        ["flush", 3], ["clock", 20000], ["tick"], ["tick"], ["wait", 0], ["rel", 0], ["rel", 0]]))
         # the idle limit is interval * idleRound: idle ticks below it (clock 5000, 10000) keep the flusher, 10001 makes it quit
         cs.append(single("bulk", 3, 2, [["add", 0, 1, 1], ["tick"], ["rel", 0], ["clock", 5000], ["tick"], ["clock", 5000], ["tick"],
                                         ["add", 1, 2, 1], ["clock", 1], ["tick"], ["rel", 0], ["clock", 10001], ["tick"], ["add", 0, 3, 1]]))
@@ -547,7 +560,14 @@ class C11(Property):
                 ops.append(["relall"])
             else:
                 # idle-quit pattern on instance i
-                ops += [["relall"], ["clock", rng.choice([10001, 20000])], ["tick", i], ["tick", i]]
+                if rng.random() < 0.3:
+                    # the flusher idle-quits while a foreign Flush is held inside its callback; then a Wait
+                    ops += [["relall"], ["flush", i, rng.randrange(inst["nclients"]), rng.choice([0, 1])]]
+                else:
+                    ops += [["relall"]]
+                ops += [["clock", rng.choice([10001, 20000])], ["tick", i], ["tick", i]]
+                if rng.random() < 0.3:
+                    ops.append(["wait", i, rng.randrange(inst["nclients"]), rng.choice([0, 1])])
                 if gateq:
                     # something happens between the flusher's tick Flush and its quit decision
                     for _ in range(rng.randint(0, 2)):
